@@ -399,3 +399,154 @@ Proof.
   - assumption.
   - reflexivity.
 Qed.
+
+(* stepped thread changes its pc only; no shared flag moves *)
+Ltac local_step Hn s Inum tnew :=
+  constructor; simpl;
+  [ eapply Forall_upd; [eassumption| same_others |]
+  | cnt Hn s Inum | cnt Hn s Inum | cnt Hn s Inum | cnt Hn s Inum | cnt Hn s Inum
+  | cnt Hn s Inum | cnt Hn s Inum
+  | assumption | assumption | assumption | assumption | assumption ].
+
+Lemma step_CSwapped_later s tid g ag :
+  Inv s -> nth_error (threads s) tid = Some (Closer g CSwapped true ag) ->
+  Inv (set_thread s tid
+         (Closer g (if negb g then CDone else if ag then CWaitG else CWaitC) true ag)).
+Proof.
+  intros I Hn. setup I Hn.
+  destruct g, ag; simpl; local_step Hn s Inum tt;
+    unfold tok_s; simpl; intuition; try discriminate.
+Qed.
+
+Lemma step_CSwapped_first s tid g ag :
+  Inv s -> nth_error (threads s) tid = Some (Closer g CSwapped false ag) ->
+  Inv (set_thread (do_teardown s) tid (Closer g CTorndown false ag)).
+Proof.
+  intros I Hn. setup I Hn.
+  constructor; simpl;
+  [ eapply Forall_upd; [eassumption| same_others |]
+  | cnt Hn s Inum | cnt Hn s Inum | cnt Hn s Inum | cnt Hn s Inum | cnt Hn s Inum
+  | cnt Hn s Inum | cnt Hn s Inum
+  | reflexivity | assumption | assumption | assumption | assumption ].
+  unfold tok_s; simpl; intuition.
+Qed.
+
+Lemma step_CWaitG s tid g ac ag :
+  Inv s -> nth_error (threads s) tid = Some (Closer g CWaitG ac ag) ->
+  Inv (set_thread s tid (Closer g CDone ac ag)).
+Proof.
+  intros I Hn. setup I Hn. destruct Ht as (Hs & Hac & Hg & Hag). subst.
+  local_step Hn s Inum tt. unfold tok_s; simpl; intuition; try discriminate.
+Qed.
+
+Lemma step_CWaitC s tid g ac ag :
+  Inv s -> nth_error (threads s) tid = Some (Closer g CWaitC ac ag) ->
+  Inv (set_thread s tid (Closer g CGraceful ac ag)).
+Proof.
+  intros I Hn. setup I Hn. destruct Ht as (Hs & Hac & Hg & Hag). subst.
+  local_step Hn s Inum tt. unfold tok_s; simpl; intuition; try discriminate.
+Qed.
+
+Lemma step_CTorndown s tid g ac ag :
+  Inv s -> nth_error (threads s) tid = Some (Closer g CTorndown ac ag) ->
+  ucsLock s = false ->
+  Inv (set_thread (set_lock s true) tid
+         (Closer g (CComputed (pion_state (isClosed s) (iceState s) (dtlsState s))) ac ag)).
+Proof.
+  intros I Hn El. setup I Hn. destruct Ht as ((Hcl & Hgg & Hagg & Haa) & Hac). subst ac.
+  rewrite Hcl.
+  assert (pion_state true (iceState s) (dtlsState s) = PcClosed) as Hv
+      by (apply pion_closed_iff; reflexivity).
+  rewrite Hv.
+  constructor; simpl;
+  [ eapply Forall_upd; [eassumption| same_others |]
+  | cnt Hn s Inum | cnt Hn s Inum | cnt Hn s Inum | cnt Hn s Inum | idtac
+  | cnt Hn s Inum | cnt Hn s Inum
+  | assumption | assumption | assumption | assumption | assumption ].
+  - unfold tok_s; simpl; intuition.
+  - pose proof (count_upd holds_lock (threads s) tid _
+                  (Closer g (CComputed PcClosed) false ag) Hn) as Hc.
+    simpl in Hc. rewrite Ih, El in Hc. simpl in Hc. lia.
+Qed.
+
+(* what a commit of the value closed leaves unchanged / establishes *)
+Lemma commit_closed_fields s :
+  let s1 := ucs_commit s PcClosed in
+  threads s1 = threads s /\ isClosed s1 = isClosed s /\ gflag s1 = gflag s /\
+  closeDone s1 = closeDone s /\ gracefulDone s1 = gracefulDone s /\ ucsLock s1 = false /\
+  sigClosed s1 = sigClosed s /\ teardowns s1 = teardowns s /\
+  gracefulOps s1 = gracefulOps s /\ panicked s1 = panicked s /\
+  seenb s1 = true /\ pcs_eqb (connState s1) PcClosed = true /\
+  (closed_is_final (connLog s) = true -> closed_is_final (connLog s1) = true).
+Proof.
+  unfold ucs_commit, seenb. destruct (pcs_eqb (connState s) PcClosed) eqn:E; simpl;
+    rewrite ?E; simpl; repeat split; auto. apply cif_app_closed.
+Qed.
+
+Lemma others_after_closed_commit s tid t :
+  Inv s -> nth_error (threads s) tid = Some t -> holds_lock t = true ->
+  forall m u, m <> tid -> nth_error (threads s) m = Some u ->
+    tok_s s u -> tok (isClosed s) (gflag s) true true u.
+Proof.
+  intros I Hn Hl m u Hm Hu Hp. unfold tok_s in Hp.
+  eapply tok_mono; [exact Hp| | | |]; auto.
+  intros Hl' _. rewrite (holder_unique s tid t I Hn Hl m u Hm Hu) in Hl'. discriminate.
+Qed.
+
+Lemma holder_locked s tid t :
+  Inv s -> nth_error (threads s) tid = Some t -> holds_lock t = true -> ucsLock s = true.
+Proof.
+  intros I Hn Hl. destruct (ucsLock s) eqn:E; auto.
+  pose proof (inv_hold s I) as Ih. rewrite E in Ih. simpl in Ih.
+  rewrite (count_zero_nth holds_lock _ _ _ Ih Hn) in Hl. discriminate.
+Qed.
+
+Ltac tokfin := repeat split; intros; auto; try discriminate; try congruence.
+
+Ltac psimpl :=
+  cbn [threads isClosed gflag closeDone gracefulDone ucsLock sigClosed iceState dtlsState
+       connState connLog teardowns gracefulOps panicked set_thread close_closeDone
+       close_gracefulDone do_graceful_ops set_lock].
+
+Lemma step_CComputed_graceful s tid v ac ag :
+  Inv s -> nth_error (threads s) tid = Some (Closer true (CComputed v) ac ag) ->
+  Inv (set_thread (ucs_commit s v) tid (Closer true CGraceful ac ag)).
+Proof.
+  intros I Hn. setup I Hn. destruct Ht as ((Hcl & Hgg & Hagg & Haa) & Hac & Hv). subst ac v.
+  pose proof (holder_locked s tid _ I Hn eq_refl) as El.
+  pose proof (others_after_closed_commit s tid _ I Hn eq_refl) as Hothers.
+  destruct (commit_closed_fields s) as (E1 & E2 & E3 & E4 & E5 & E6 & E7 & E8 & E9 & E10 & Es & Ec & Elog).
+  assert (ag = false) as Hag0 by auto. subst ag.
+  constructor; psimpl; rewrite ?E1, ?E2, ?E3, ?E4, ?E5, ?E6, ?E7, ?E8, ?E9, ?E10;
+  [ eapply Forall_upd; [eassumption| |]
+  | cnt Hn s Inum | cnt Hn s Inum | cnt Hn s Inum | cnt Hn s Inum | cnt Hn s Inum
+  | cnt Hn s Inum | cnt Hn s Inum
+  | assumption | assumption | assumption | auto | auto ].
+  - intros m u Hm Hu Hp. unfold tok_s; psimpl. rewrite E2, E3. unfold seenb in *. psimpl.
+    rewrite Es, Ec. eapply Hothers; eauto.
+  - unfold tok_s; psimpl. rewrite E2, E3, Ec. simpl. tokfin.
+Qed.
+
+Lemma step_CComputed_plain s tid v ac ag :
+  Inv s -> nth_error (threads s) tid = Some (Closer false (CComputed v) ac ag) ->
+  Inv (set_thread (close_closeDone (ucs_commit s v)) tid (Closer false CDone ac ag)).
+Proof.
+  intros I Hn. setup I Hn. destruct Ht as ((Hcl & Hgg & Hagg & Haa) & Hac & Hv). subst ac v.
+  pose proof (holder_locked s tid _ I Hn eq_refl) as El.
+  pose proof (others_after_closed_commit s tid _ I Hn eq_refl) as Hothers.
+  assert (closeDone s = false) as Hcd0
+      by (eapply (first_not_done s tid false (CComputed PcClosed) ag I Hn); discriminate).
+  destruct (commit_closed_fields s) as (E1 & E2 & E3 & E4 & E5 & E6 & E7 & E8 & E9 & E10 & Es & Ec & Elog).
+  assert (ag = false) as Hag0 by auto. subst ag.
+  constructor; psimpl; rewrite ?E1, ?E2, ?E3, ?E4, ?E5, ?E6, ?E7, ?E8, ?E9, ?E10;
+  [ eapply Forall_upd; [eassumption| |]
+  | cnt Hn s Inum | cnt Hn s Inum | idtac | cnt Hn s Inum | cnt Hn s Inum
+  | cnt Hn s Inum | cnt Hn s Inum
+  | assumption | idtac | assumption | auto | auto ].
+  - intros m u Hm Hu Hp. unfold tok_s; psimpl. rewrite E2, E3. unfold seenb in *. psimpl.
+    rewrite Es, Ec. eapply Hothers; eauto.
+  - unfold tok_s; psimpl. rewrite E2, E3, Ec. simpl. tokfin.
+  - pose proof (count_upd is_first_done (threads s) tid _ (Closer false CDone false false) Hn) as Hc.
+    simpl in Hc. rewrite Icd, Hcd0 in Hc. simpl in Hc. clear - Hc. simpl. lia.
+  - rewrite Ip, Hcd0. reflexivity.
+Qed.
